@@ -200,7 +200,6 @@ func openHelperAppend(c *Check, call *ssa.Call) {
 	c.Floor("os.OpenFile calls in the open helper", 1, n)
 }
 
-
 // eventWriterUnbuffered (C05; the same necessary condition as C10's
 // writer-is-the-append-file, stated for the error contract): every
 // EventWriter of the daemon encodes straight into the file returned by the
